@@ -17,11 +17,16 @@ def e2job(prop, file, fn, tmo, tier, env=None, tag=""):
 def jobs(tier):
     tmo = 150 if tier == "quick" else 900
     out = []
+    # the case-folding paths call str.lower() on the symbolic value (many more paths): shorter bound
+    Lfold = 2 if tier == "quick" else 3
     for k in range(13):
-        for fn in ("h_glob_case_sensitive", "h_glob_ignore_case", "h_absolute_means_equality"):
+        for fn in ("h_glob_case_sensitive", "h_absolute_means_equality"):
             out.append(e2job("C13", "c13", fn, tmo, tier, {"VF_K": k}, "[k=%d]" % k))
+        out.append(e2job("C13", "c13", "h_glob_ignore_case", tmo, tier, {"VF_K": k, "VF_L": Lfold},
+                         "[k=%d,len<=%d]" % (k, Lfold)))
     for k in range(8):
-        for fn in ("h_regex_fullmatch", "h_answers_do_not_depend_on_history"):
-            out.append(e2job("C13", "c13", fn, tmo, tier, {"VF_K": k}, "[k=%d]" % k))
+        out.append(e2job("C13", "c13", "h_regex_fullmatch", tmo, tier, {"VF_K": k}, "[k=%d]" % k))
+        out.append(e2job("C13", "c13", "h_answers_do_not_depend_on_history", tmo, tier,
+                         {"VF_K": k, "VF_L": Lfold}, "[k=%d,len<=%d]" % (k, Lfold)))
     out.append(e2job("C13", "c13", "h_none_value_is_empty", tmo, tier))
     return out
